@@ -455,6 +455,8 @@ fn eval_run(f: &[&str]) -> ImplOut {
             ("mov", _) => um.move_columns_action(0, pi, ni, di),
             ("clear", _) => um.range_clear_contents(&area),
             ("clearundo", _) => um.range_clear_contents(&area).and_then(|_| um.undo()),
+            ("delundo", "r") => um.delete_rows(0, pi, ni).and_then(|_| um.undo()),
+            ("delundo", _) => um.delete_columns(0, pi, ni).and_then(|_| um.undo()),
             ("cut", _) | ("copy", _) => (|| {
                 um.set_selected_sheet(0)?;
                 um.set_selected_cell(p[0] as i32, p[1] as i32)?;
@@ -513,7 +515,7 @@ fn eval_run(f: &[&str]) -> ImplOut {
     if want_links != after.links {
         let what = match kind {
             "clear" => "clear-removes-link",
-            "clearundo" => "undo-restores-link",
+            "clearundo" | "delundo" => "undo-restores-link",
             "cut" | "copy" => "links-follow:paste",
             _ => "links-follow",
         };
@@ -522,70 +524,140 @@ fn eval_run(f: &[&str]) -> ImplOut {
 
     // ------------------------------------------------------------------ oracle: conditional formats
     let n_before = cfs.len();
+    if kind == "delundo" {
+        // the undo of a deletion brings every conditional format back (ranges, rules, order)
+        if before.cfs != after.cfs {
+            out = out.fail("c33:undo-restores-cf:delundo", &format!("{:?} -> {:?}", before.cfs, after.cfs));
+        }
+        return out;
+    }
     if matches!(kind, "clear" | "clearundo") {
         if before.cfs != after.cfs {
             out = out.fail("c33:cf-changed-by-clear", &format!("{:?} -> {:?}", before.cfs, after.cfs));
         }
         return out;
     }
-    if after.cfs.len() < n_before {
-        return out.fail("c33:cf-lost", &format!("{} conditional formats before, {} after", n_before, after.cfs.len()));
-    }
+    // what the property says about each conditional format: `None` = all its cells are deleted (it goes away),
+    // otherwise the rectangles of its parts (`None` = not determined) and the cell (before the edit) that becomes
+    // the first corner of the range
+    type Rect4 = (i64, i64, i64, i64);
+    let survive = |x: i64, on_axis: bool| -> bool {
+        if kind != "del" || !on_axis {
+            return true;
+        }
+        !(x >= p[0] && x < p[0] + p[1])
+    };
+    let mut expected: Vec<(usize, Vec<Option<Rect4>>, (i64, i64))> = vec![];
     for (i, cf) in cfs.iter().enumerate() {
-        let (range_after, forms_after) = &after.cfs[i];
+        let mut parts: Vec<Option<Rect4>> = vec![];
+        let mut source: Option<(i64, i64)> = None;
+        for pp in &cf.parts {
+            match kind {
+                "del" => {
+                    // the image of the surviving cells (a rectangle again); nothing if none survives
+                    let (r1, c1, r2, c2) = norm(pp);
+                    let rows: Vec<i64> = (r1..=r2).filter(|x| survive(*x, ax == "r")).collect();
+                    let cols: Vec<i64> = (c1..=c2).filter(|x| survive(*x, ax == "c")).collect();
+                    if rows.is_empty() || cols.is_empty() {
+                        continue;
+                    }
+                    let a = spec_cell(kind, ax, &p, rows[0], cols[0]);
+                    let b = spec_cell(kind, ax, &p, *rows.last().unwrap(), *cols.last().unwrap());
+                    if let (Some((a1, a2)), Some((b1, b2))) = (a, b) {
+                        parts.push(Some((a1, a2, b1, b2)));
+                    } else {
+                        parts.push(None);
+                    }
+                    if source.is_none() {
+                        // the first written corner if it survives, else the first surviving cell
+                        let sr = if survive(pp.r1, ax == "r") { pp.r1 } else { rows[0] };
+                        let sc = if survive(pp.c1, ax == "c") { pp.c1 } else { cols[0] };
+                        source = Some((sr, sc));
+                    }
+                }
+                "ins" | "mov" => {
+                    let a = spec_cell(kind, ax, &p, pp.r1, pp.c1);
+                    let b = spec_cell(kind, ax, &p, pp.r2, pp.c2);
+                    match (a, b) {
+                        (Some((r1, c1)), Some((r2, c2))) if c1 <= last("c") && c2 <= last("c") && r1 <= last("r") && r2 <= last("r") => {
+                            parts.push(Some((r1.min(r2), c1.min(c2), r1.max(r2), c1.max(c2))))
+                        }
+                        _ => parts.push(None),
+                    }
+                    source.get_or_insert((pp.r1, pp.c1));
+                }
+                "cut" => {
+                    let (r1, c1, r2, c2, tr, tc) = (p[0], p[1], p[2], p[3], p[4], p[5]);
+                    if in_rect(pp.r1, pp.c1, r1, c1, r2, c2) && in_rect(pp.r2, pp.c2, r1, c1, r2, c2) {
+                        parts.push(Some((pp.r1 + tr - r1, pp.c1 + tc - c1, pp.r2 + tr - r1, pp.c2 + tc - c1)));
+                    } else {
+                        parts.push(Some(norm(pp)));
+                    }
+                    source.get_or_insert((pp.r1, pp.c1));
+                }
+                _ => {
+                    parts.push(Some(norm(pp)));
+                    source.get_or_insert((pp.r1, pp.c1));
+                }
+            }
+        }
+        if let Some(src) = source {
+            expected.push((i, parts, src));
+        }
+    }
+    if after.cfs.len() < expected.len() {
+        return out.fail("c33:cf-lost", &format!("{} conditional formats should remain, {} present: {:?}", expected.len(), after.cfs.len(), after.cfs));
+    }
+    if kind != "copy" && after.cfs.len() > expected.len() {
+        out = out.fail(
+            if kind == "del" { "c33:cf-range:deleted-range-still-there" } else { "c33:cf-extra" },
+            &format!("{} conditional formats should remain, {} present: {:?}", expected.len(), after.cfs.len(), after.cfs),
+        );
+        return out;
+    }
+    for (k, (i, want_parts, src)) in expected.iter().enumerate() {
+        let cf = &cfs[*i];
+        let (range_after, forms_after) = &after.cfs[k];
         let parts_after = parse_sqref_text(range_after);
-        // ranges, part by part
-        if parts_after.len() != cf.parts.len() && kind != "copy" {
-            out = out.fail(&format!("c33:cf-range:{kind}"), &format!("cf {i}: {} -> {range_after}", sqref_text(&cf.parts, "+")));
+        if parts_after.len() != want_parts.len() {
+            out = out.fail(&format!("c33:cf-range:{kind}"), &format!("cf {i}: {} -> {range_after}, {} parts expected", sqref_text(&cf.parts, "+"), want_parts.len()));
         } else {
-            for (pp, qa) in cf.parts.iter().zip(parts_after.iter()) {
-                let want: Option<Option<(i64, i64, i64, i64)>> = match kind {
-                    "ins" | "del" | "mov" => {
-                        let a = spec_cell(kind, ax, &p, pp.r1, pp.c1);
-                        let b = spec_cell(kind, ax, &p, pp.r2, pp.c2);
-                        match (a, b) {
-                            (Some((r1, c1)), Some((r2, c2))) => {
-                                if c1 > last("c") || c2 > last("c") || r1 > last("r") || r2 > last("r") {
-                                    None
-                                } else {
-                                    Some(Some((r1.min(r2), c1.min(c2), r1.max(r2), c1.max(c2))))
-                                }
-                            }
-                            _ => Some(None), // a corner was deleted
-                        }
-                    }
-                    "cut" => {
-                        let (r1, c1, r2, c2, tr, tc) = (p[0], p[1], p[2], p[3], p[4], p[5]);
-                        if in_rect(pp.r1, pp.c1, r1, c1, r2, c2) && in_rect(pp.r2, pp.c2, r1, c1, r2, c2) {
-                            Some(Some((pp.r1 + tr - r1, pp.c1 + tc - c1, pp.r2 + tr - r1, pp.c2 + tc - c1)))
-                        } else {
-                            Some(Some(norm(pp)))
-                        }
-                    }
-                    _ => Some(Some(norm(pp))),
-                };
-                match want {
-                    None => {}
-                    Some(Some(w)) => {
-                        if norm(qa) != w {
-                            out = out.fail(&format!("c33:cf-range:{kind}"), &format!("cf {i} part {} should cover {:?}, is {}", part_text(pp), w, part_text(qa)));
-                        }
-                    }
-                    Some(None) => {
-                        // the property: the range follows its cells / breaks as a formula range does; the engine
-                        // keeps the old text, which now covers other cells
-                        if qa == pp {
-                            out = out.fail("c33:cf-range:deleted-corner-keeps-old-range", &format!("cf {i} part {} lost a corner to `{kind} {ax} {} {}` and is still {}", part_text(pp), p[0], p[1], part_text(qa)));
-                        } else {
-                            out = out.tag("cf:deleted-corner:changed");
-                        }
+            for (w, qa) in want_parts.iter().zip(parts_after.iter()) {
+                if let Some(w) = w {
+                    if norm(qa) != *w {
+                        out = out.fail(&format!("c33:cf-range:{kind}"), &format!("cf {i} ({}) part should cover {:?}, is {}", sqref_text(&cf.parts, "+"), w, part_text(qa)));
                     }
                 }
             }
         }
-        // rule formulas
+        // rule formulas: as the cell that becomes the first corner sees them (relative coordinates move with it),
+        // then rewritten like a cell formula
+        let anchor = (cf.parts[0].r1, cf.parts[0].c1);
+        let (dr, dc) = (src.0 - anchor.0, src.1 - anchor.1);
+        let reanchor = |a: &Atom| -> Atom {
+            let mv = |q: &Pt| Pt { ra: q.ra, r: if q.ra { q.r } else { q.r + dr }, ca: q.ca, c: if q.ca { q.c } else { q.c + dc } };
+            match a {
+                Atom::Ref { sheet, named, p } => Atom::Ref { sheet: *sheet, named: *named, p: mv(p) },
+                Atom::Rng { sheet, named, a, b } => Atom::Rng { sheet: *sheet, named: *named, a: mv(a), b: mv(b) },
+            }
+        };
         for (j, (tpl, atoms)) in cf.formulas.iter().enumerate() {
-            let want: Option<Vec<String>> = atoms.iter().map(|a| spec_atom(kind, ax, &p, a)).collect();
+            let want: Option<Vec<String>> = atoms
+                .iter()
+                .map(|a| {
+                    let a2 = reanchor(a);
+                    let ok = |q: &Pt| q.r >= 1 && q.c >= 1 && q.r <= super::c12::LAST_ROW && q.c <= super::c12::LAST_COLUMN;
+                    let inside = match &a2 {
+                        Atom::Ref { p, .. } => ok(p),
+                        Atom::Rng { a, b, .. } => ok(a) && ok(b) && a.r <= b.r && a.c <= b.c,
+                    };
+                    if inside {
+                        spec_atom(kind, ax, &p, &a2)
+                    } else {
+                        None
+                    }
+                })
+                .collect();
             if let (Some(w), Some(got)) = (want, forms_after.get(j)) {
                 let w = format!("={}", fill(tpl, &w));
                 if *got != w {
@@ -594,6 +666,7 @@ fn eval_run(f: &[&str]) -> ImplOut {
             }
         }
     }
+    let n_before = expected.len();
     // copy: the new entries
     if kind == "copy" {
         let (r1, c1, r2, c2, tr, tc) = (p[0], p[1], p[2], p[3], p[4], p[5]);
@@ -643,8 +716,6 @@ fn eval_run(f: &[&str]) -> ImplOut {
         if after.cfs.len() != k {
             out = out.fail("c33:cf-copy:extra", &format!("{} conditional formats expected, {} present", k, after.cfs.len()));
         }
-    } else if after.cfs.len() != n_before {
-        out = out.fail("c33:cf-extra", &format!("{} conditional formats before, {} after", n_before, after.cfs.len()));
     }
     out
 }
@@ -726,9 +797,9 @@ fn gen_structure(ctx: &Ctx, sink: &mut dyn FnMut(String)) {
     for case in 0..count(ctx, 400, 8000) {
         let mut rng = top.fork();
         let (links, cfs) = gen_sheet(&mut rng);
-        let kind = ["ins", "del", "mov"][case % 3];
+        let kind = ["ins", "del", "mov", "del", "delundo"][case % 5];
         let ax = if rng.chance(1, 2) { "r" } else { "c" };
-        let api = if rng.chance(1, 2) { "m" } else { "u" };
+        let api = if kind == "delundo" || rng.chance(1, 2) { "u" } else { "m" };
         let hi = if ax == "r" { 12 } else { 7 };
         let pos = rng.range(1, hi);
         let n = rng.range(1, 3);
